@@ -192,6 +192,13 @@ def check_mean_any_m(ctx: Ctx):
         for k in report:
             for j, (a, b, c) in enumerate(zip(rgc[k], mg[k], tg[k])):
                 tol = 8 * uu * (absJ[k][j] / m * (m + 2) + abs(Fraction(pre[k][j]) if pre.get(k) is not None else 0))
+                if abs(a - c) > 2 * tol and abs(a - b) <= tol:
+                    # torchjd equals the exact gradient and torch.autograd on the twin does not: paths that cancel INSIDE a
+                    # Jacobian entry (two leaves over one memory, a factor used twice) round differently under the 1/m
+                    # cotangents of the twin — the allowance is built from the entries and cannot see them.  The exact
+                    # model is the oracle; the twin's own rounding is not a finding.
+                    ctx.count("twin_rounding_differs_from_exact")
+                    continue
                 if abs(a - b) > tol or abs(a - c) > 2 * tol:
                     ctx.violation(f"backward with Mean() over {m} rows leaves {float(a)!r} in leaf {k}[{j}]; the gradient of the "
                                   f"mean of the outputs is {float(b)!r} (torch.autograd on the twin: {float(c)!r}); allowance "
